@@ -1839,10 +1839,11 @@ def explore(ctx, fn, pre=(), max_paths=64, budget_s=600.0, first_sample=None, on
 
 # ----------------------------------------------------------------------------- claims
 class ClaimResult:
-    __slots__ = ("name", "verdict", "witness", "detail", "solver_s", "size")
+    __slots__ = ("name", "verdict", "witness", "detail", "solver_s", "size", "more")
 
     def __init__(self, name, verdict, witness=None, detail="", solver_s=0.0, size=0):
         self.name, self.verdict, self.witness, self.detail, self.solver_s, self.size = name, verdict, witness, detail, solver_s, size
+        self.more = []  # further witnesses far from the first one (tried in turn when a witness does not reproduce)
 
     def as_dict(self):
         return dict(name=self.name, verdict=self.verdict, witness=self.witness, detail=self.detail,
@@ -1861,6 +1862,32 @@ def _witness(ctx, model):
     return w
 
 
+def _far_witnesses(ctx, conds, first, count=2):
+    """Up to ``count`` further models of ``conds`` at distance >= 5 from ``first`` and from each other."""
+    out = []
+    try:
+        prev = [first]
+        for _ in range(count):
+            far = []
+            for w in prev:
+                dist = None
+                for i, n in enumerate(ctx.names):
+                    if n in w:
+                        term = (ctx.z3vars[i] - _rv(Fraction(w[n]))) * (ctx.z3vars[i] - _rv(Fraction(w[n])))
+                        dist = term if dist is None else dist + term
+                if dist is not None:
+                    far.append(dist >= 25)
+            r3, m3 = ctx.solve(conds, timeout_ms=3000, z3extra=far, is_claim=True)
+            if r3 != "sat":
+                break
+            w3 = _witness(ctx, m3)
+            out.append(w3)
+            prev.append(w3)
+    except Exception:  # noqa: BLE001 - optional
+        pass
+    return out
+
+
 def claim(name, cond, timeout_ms=None):
     """Decide ``cond`` for every input on the current path: solve pc & atoms & ~cond."""
     ctx = CTX
@@ -1871,6 +1898,8 @@ def claim(name, cond, timeout_ms=None):
         res = ClaimResult(name, "held" if cond.a else "violated", None, "constant after normal form", 0.0, 0)
         if not cond.a:
             res.witness = dict(ctx.sample)
+            # false on the whole path: every input satisfying the path condition is a witness
+            res.more = _far_witnesses(ctx, list(ctx.pc), res.witness)
         ctx.claims.append(res)
         return res
     neg = Cond.Not(cond)
@@ -1887,6 +1916,10 @@ def claim(name, cond, timeout_ms=None):
         res = ClaimResult(name, "held", None, "", dt, cond.size())
     elif r == "sat":
         res = ClaimResult(name, "violated", _witness(ctx, m), "", dt, cond.size())
+        # The environment stubs (kabsch, eigh, hull order) allow behaviours the real dependency may not show at this very
+        # input, and a witness can sit where the float code is right by coincidence: keep up to two more witnesses far
+        # from the first (and from each other) for the replay to try.
+        res.more = _far_witnesses(ctx, ctx.pc + [neg], res.witness)
     else:
         # cheap witness search: the sample itself may already violate the claim
         try:
